@@ -78,6 +78,29 @@ type parser struct {
 	chr               rune
 	insertSemicolon   bool
 	implicitSemicolon bool // Scratch when trying to seek to the next statement, etc.
+	nestLev           int  // Current depth of the tree being built, see maxNestLev.
+}
+
+// maxNestLev is the deepest tree the parser is willing to build: every later stage (the
+// compile step, the evaluator, ast.Walk) recurses on the tree, and a Go stack overflow is
+// not a panic the embedder could recover from but the end of the process.
+const maxNestLev = 10000
+
+// bailout is the panic that ends the parse when maxNestLev is exceeded, see parse.
+type bailout struct{}
+
+func incNestLev(p *parser) *parser {
+	p.nestLev++
+	if p.nestLev > maxNestLev {
+		p.error(p.idx, "exceeded max nesting depth")
+		panic(bailout{})
+	}
+	return p
+}
+
+// decNestLev is used in conjunction with incNestLev: defer decNestLev(incNestLev(p)).
+func decNestLev(p *parser) {
+	p.nestLev--
 }
 
 // Parser is implemented by types which can parse JavaScript Code.
@@ -258,9 +281,19 @@ func (p *parser) slice(idx0, idx1 file.Idx) string {
 	return ""
 }
 
-func (p *parser) parse() (*ast.Program, error) {
+func (p *parser) parse() (program *ast.Program, err error) { //nolint:nonamedreturns
+	defer func() {
+		if caught := recover(); caught != nil {
+			if _, ok := caught.(bailout); !ok {
+				panic(caught)
+			}
+			// Nested too deeply: there is no tree, only the errors.
+			program, err = &ast.Program{File: p.file}, p.errors.Err()
+		}
+	}()
+
 	p.next()
-	program := p.parseProgram()
+	program = p.parseProgram()
 	if false {
 		p.errors.Sort()
 	}
